@@ -308,6 +308,13 @@ pub fn run(opts: &Opts) -> i32 {
             }
         }
     }
+    // the time of the printer is exponential in the depth of nested groups around a term that
+    // spans lines (each group renders its content once per layout alternative): 14 redundant
+    // parentheses take minutes at the default options (a known finding with this input)
+    {
+        let n = 14;
+        inputs.push(("nestedgroups:14".into(), format!("begin {}let y : A = ( param y in exists ( y : A ) . ( ) ) in ( ( +K _ ) : comatch | .d => def y = _ in ( _ ) end ){} end\n", "( ".repeat(n), " )".repeat(n))));
+    }
     // unparseable inputs (C12): the file must be left as it is
     for (k, (p, t)) in corpus.iter().enumerate() {
         if !(opts.thorough() || k % 4 == 0) {
@@ -450,7 +457,9 @@ pub fn run(opts: &Opts) -> i32 {
                         } else if verbatim || text.contains("verbatim") {
                             "verbatim-directive"
                         } else if third == out2
-                            && ["=>(fn", ".(forall", ".(pi", ".(sigma", ".(exists", "=>((fn", ".((forall", ".((pi", ".((sigma", ".((exists"].iter().any(|p| squeeze(&text).contains(p))
+                            && (["=>(fn", ".(forall", ".(pi", ".(sigma", ".(exists", "=>((fn", ".((forall", ".((pi", ".((sigma", ".((exists"].iter().any(|p| squeeze(&text).contains(p))
+                                // `comatch p => t end` is another spelling of `fn p => t` (printed as `fn`)
+                                || ["=>(comatch", "=>((comatch"].iter().any(|p| squeeze(&text).match_indices(p).any(|(at, m)| !squeeze(&text)[at + m.len()..].starts_with('|') && !squeeze(&text)[at + m.len()..].starts_with("end"))))
                         {
                             // the first pass drops the parentheses around a binder that is the body of
                             // the same kind of binder, the second merges the two telescopes
@@ -465,6 +474,14 @@ pub fn run(opts: &Opts) -> i32 {
                         } else if squeeze(&out) == squeeze(&out2) && third == out2 {
                             let _ = width;
                             "two-pass-relayout"
+                        } else if third == out2 && n_comments > 0 && {
+                            let bare = |t: &str| squeeze(&fmt::strip_comments(t)).replace(['(', ')'], "");
+                            bare(&out) == bare(&out2)
+                        } {
+                            // a comment in front of the binder of a manifest parameter (or a similar
+                            // delimited binder) makes the second pass print the binder as a group of
+                            // its own: parentheses and white space only, same tokens otherwise
+                            "two-pass-comment-regrouping"
                         } else if squeeze(&fmt::strip_block_indent(&out)) == squeeze(&fmt::strip_block_indent(&out2))
                             && fmt::block_ranges(&out).iter().any(|(a, b)| out[*a..*b].contains('\n'))
                         {
